@@ -29,6 +29,25 @@ class EarthFn(FnTr):
     prefix = None
     tail_hash = None
 
+    def e_Constant(self, n):
+        # float literals as exact decimals WITHOUT exponent (6.3710e6 -> 6371000): the value is the
+        # same real number, and the float execution of the model then reads the literal with one
+        # correctly rounded division at most (shell boundaries are discontinuities)
+        if isinstance(n.value, float) and not isinstance(n.value, bool):
+            from decimal import Decimal
+            from fractions import Fraction
+            text = ast.get_source_segment(self.mod.text, n) or repr(n.value)
+            try:
+                q = Fraction(Decimal(text.replace("_", "")))
+            except Exception:
+                self.err(n, "unreadable float literal")
+            if q.denominator == 1:
+                return (str(q.numerator) if q >= 0 else "(%d)" % q.numerator), "R"
+            d = Decimal(text.replace("_", ""))
+            plain = format(d, "f")
+            return (plain if q >= 0 else "(%s)" % plain), "R"
+        return FnTr.e_Constant(self, n)
+
     def e_BinOp(self, n):
         op = type(n.op).__name__
         if op in ("Add", "Sub", "Mult"):
